@@ -61,11 +61,21 @@ pub fn cases(tier: Tier) -> Vec<PairCase> {
             c.grants = Grants::ConnectionStarved { conn_step: 30000 };
             v.push(c);
         }
-        // mid-connection shrink of the initial window below in-flight data
+        // mid-connection shrink of the initial window
         for w in [0u32, 100, 16384] {
             let mut c = PairCase::simple(Proto::H2, back, vec![x(0, 150000)]);
             c.shrink_window_to = Some(w);
             c.grants = Grants::Drip { step: 40000 };
+            v.push(c);
+        }
+        // ... below data already in flight: sozu fills a 10000-byte window, the window is shrunk
+        // (its send window goes negative), then one WINDOW_UPDATE takes it straight back above zero
+        for (w, step) in [(4000u32, 36000u32), (0, 12000), (9999, 70000)] {
+            let mut c = PairCase::simple(Proto::H2, back, vec![x(0, 40000)]);
+            c.initial_window = Some(10000);
+            c.shrink_window_to = Some(w);
+            c.shrink_after_bytes = Some(10000);
+            c.grants = Grants::Drip { step };
             v.push(c);
         }
         // uploads towards sozu: its own windows must be replenished
